@@ -12,6 +12,7 @@ import threading
 import time
 
 from cs_util import *  # noqa: F401,F403
+import cs_ui as UI
 
 TRACKED_DIAG = ("diag.dot", "diag-new.dot")
 WRITE_CLASS = {"open_creat", "open_trunc", "write", "pwrite", "writev", "fsync", "fdatasync", "rename",
@@ -67,6 +68,8 @@ class Slot:
         self._lock_f = None
 
     def proj(self, p):
+        if p == "ui":
+            return os.path.join(self.dir, "ui", UI.UI_REL)
         return os.path.join(self.dir, p, "ws")
 
     def target(self, p):
@@ -97,6 +100,16 @@ class World:
         self.gold_lock = threading.Lock()
         self.gold_mem = {}
         self.compute_golden = None  # hook: (bp, toggles) -> None, computes and memoises a missing golden
+        self.ui_apps = {a["pkg"]: a for a in corpus.get("ui_apps", [])}
+        self.ui_bps_dir = os.path.join(state_dir, "ui_bps")
+        self.ui_template = os.path.join(state_dir, "ui")
+
+    def ui_app(self, bp):
+        """`ui:<pkg>` -> {dir, pkg, expect}"""
+        a = self.ui_apps.get(bp[3:])
+        if a is None:
+            raise HarnessError(f"unknown UI application {bp}")
+        return a
 
     # ------------------------------------------------------------------ goldens
     def golden_path(self, bp, toggles):
@@ -174,13 +187,14 @@ def file_class(rel):
 # ---------------------------------------------------------------------------------- trace
 
 
-def parse_trace(path, slot, proj):
+def parse_trace(path, slot, proj, extra_subs=()):
     """Returns (ops, fault) with paths normalised: $HOME, $WS, $TARGET, $SLOT."""
     ops = []
     fault = None
     if not os.path.exists(path):
         return ops, fault
-    subs = [(slot.home, "$HOME"), (slot.proj(proj), "$WS"), (slot.target(proj), "$TARGET"), (slot.dir, "$SLOT")]
+    subs = list(extra_subs) + [(slot.home, "$HOME"), (slot.proj(proj), "$WS"), (slot.target(proj), "$TARGET"),
+                               (slot.dir, "$SLOT")]
 
     def norm(p):
         if p.startswith("/"):
@@ -285,7 +299,7 @@ class HistoryRun:
         self.h = history
         self.execs = []  # execution records
         self.concrete = []  # primitive steps actually performed (explicit replay script)
-        self.toggles = {"p0": set(), "p1": set()}
+        self.toggles = {"p0": set(), "p1": set(), "ui": set()}
         self.projects = set()
         self.post_fault = False
         self.notes = []
@@ -319,6 +333,16 @@ class HistoryRun:
 
     def reset_project(self, proj, toggles=()):
         d = os.path.join(self.slot.dir, proj)
+        if proj == "ui":
+            if not os.path.isdir(os.path.join(self.w.ui_template, "R")):
+                raise HarnessError("the UI-test template is missing (run setup)")
+            rmtree(d)
+            os.makedirs(d)
+            cp_a(os.path.join(self.w.ui_template, "R"), os.path.join(d, "R"))
+            self.toggles[proj] = set()
+            self.projects.add(proj)
+            os.makedirs(self.slot.target(proj), exist_ok=True)
+            return
         rmtree(d)
         os.makedirs(os.path.join(d, "ws"))
         self.toggles[proj] = set(toggles)
@@ -337,21 +361,67 @@ class HistoryRun:
                 raise HarnessError(f"cache snapshot {src} is missing (run setup)")
             cp_a(src, self.slot.home)
 
+    # -------------------------------------------------------------- where things are
+    def layout(self, proj, bp):
+        """Canonical names (`sdk/...`, `diag.dot`, `Cargo.toml`) <-> real paths of a project."""
+        ws = self.slot.proj(proj)
+        if proj != "ui":
+            return {"ws": ws, "out": "sdk", "sdk": os.path.join(ws, "sdk"), "app_dir": None,
+                    "bp_path": os.path.join(self.w.bps_dir, bp + ".ron"),
+                    "real": lambda rel: os.path.join(ws, rel), "subs": []}
+        app = self.w.ui_app(bp)
+        d = app["dir"]
+        diag = {"diag.dot": os.path.join(d, "diagnostics.dot"), "diag-new.dot": os.path.join(d, "diag-new.dot")}
+
+        def real(rel):
+            if rel.startswith("sdk/"):
+                return os.path.join(ws, d, "generated_app", rel[4:])
+            if rel in diag:
+                return os.path.join(ws, diag[rel])
+            return os.path.join(ws, rel)
+
+        subs = [(os.path.join(ws, d, "generated_app"), "$WS/sdk"), (os.path.join(ws, diag["diag.dot"]), "$WS/diag.dot"),
+                (os.path.join(ws, diag["diag-new.dot"]), "$WS/diag-new.dot")]
+        return {"ws": ws, "out": os.path.join(d, "generated_app"), "sdk": os.path.join(ws, d, "generated_app"), "app_dir": d,
+                "bp_path": os.path.join(self.w.ui_bps_dir, app["pkg"] + ".ron"), "real": real, "subs": subs}
+
+    def snapshot(self, proj, lay):
+        if proj != "ui":
+            return snapshot_ws(lay["ws"])
+        ws, d = lay["ws"], lay["app_dir"]
+        out = {}
+        for rel, v in snapshot_ws(os.path.join(ws, d)).items():
+            if rel.startswith("generated_app/"):
+                out["sdk/" + rel[len("generated_app/"):]] = v
+            elif rel == "diagnostics.dot":
+                out["diag.dot"] = v
+            elif rel == "diag-new.dot":
+                out["diag-new.dot"] = v
+            else:
+                out["app/" + rel] = v
+        for rel in ("Cargo.toml", "Cargo.lock"):
+            p = os.path.join(ws, rel)
+            if os.path.isfile(p):
+                st = os.lstat(p)
+                out[rel] = [sha256_file(p), st.st_mtime_ns, st.st_size]
+        return out
+
     # -------------------------------------------------------------- one pavexc execution
     def exec_pavexc(self, step):
         proj = step.get("proj", "p0")
         if proj not in self.projects:
             self.reset_project(proj)
-        ws = self.slot.proj(proj)
+        lay = self.layout(proj, step["bp"])
+        ws = lay["ws"]
         self.seq += 1
         trace = os.path.join(self.slot.dir, f"trace-{self.seq}.txt")
         if os.path.exists(trace):
             os.unlink(trace)
-        bp_path = os.path.join(self.w.bps_dir, step["bp"] + ".ron")
+        bp_path = lay["bp_path"]
         argv = ["setarch", "x86_64", "-R", self.w.pavexc, "generate", "-b", bp_path, "-o",
-                step.get("out", "sdk").replace("$WS", ws)]
+                step.get("out", lay["out"]).replace("$WS", ws)]
         if step.get("diag"):
-            argv += ["--diagnostics", os.path.join(ws, step["diag"])]
+            argv += ["--diagnostics", lay["real"](step["diag"])]
         if step["mode"] == "check":
             argv += ["--check"]
         env = {
@@ -377,7 +447,7 @@ class HistoryRun:
                 spec += f":{fault['prefix']}"
             env["VERIF_FAULT"] = spec
             env["VERIF_FAULT_PATH"] = {"cache": "/.pavex/", "project": ws + "/"}[fault["phase"]]
-        before = snapshot_ws(ws)
+        before = self.snapshot(proj, lay)
         rows_before = None
         timeout = float(step.get("timeout", DEFAULT_TIMEOUT))
         out_p = os.path.join(self.slot.dir, f"out-{self.seq}.txt")
@@ -407,8 +477,8 @@ class HistoryRun:
             code, sig = None, os.WTERMSIG(status)
         else:
             code, sig = os.WEXITSTATUS(status), None
-        after = snapshot_ws(ws)
-        ops, fired = parse_trace(trace, self.slot, proj)
+        after = self.snapshot(proj, lay)
+        ops, fired = parse_trace(trace, self.slot, proj, lay["subs"])
         stderr = strip_ansi(open(err_p, "rb").read().decode(errors="replace"))
         stdout = strip_ansi(open(out_p, "rb").read().decode(errors="replace"))
         for f in (trace, out_p, err_p):
@@ -477,8 +547,48 @@ class HistoryRun:
         return rec
 
     # -------------------------------------------------------------- other primitive steps
+    def seed_outdir_ui(self, step):
+        """Output-directory states of a UI project: `upstream` (as committed upstream, possibly stale),
+        `golden` (what the clean-world run wrote), `flipped` (one of the two with one byte of lib.rs changed)."""
+        proj = "ui"
+        if proj not in self.projects:
+            self.reset_project(proj)
+        lay = self.layout(proj, step["bp"])
+        app = self.w.ui_app(step["bp"])
+        state = step["state"]
+        tdir = os.path.join(self.w.ui_template, UI.UI_REL, app["dir"])
+        data = {}
+        for rel in ("sdk/Cargo.toml", "sdk/src/lib.rs", "diag.dot"):
+            src = os.path.join(tdir, {"sdk/Cargo.toml": "generated_app/Cargo.toml", "sdk/src/lib.rs": "generated_app/src/lib.rs",
+                                      "diag.dot": "diagnostics.dot"}[rel])
+            data[rel] = open(src, "rb").read() if os.path.exists(src) else None
+        g = self.w.golden(step["bp"], [])
+        if state in ("golden", "flipped") and g is not None and g["exit"] == 0:
+            for rel in ("sdk/Cargo.toml", "sdk/src/lib.rs", "diag.dot"):
+                data[rel] = self.w.golden_bytes(step["bp"], [], rel)
+        elif state == "golden":
+            self.notes.append(f"seed_outdir: no accepted golden for {step['bp']}; upstream state used")
+        if state == "flipped" and data["sdk/src/lib.rs"]:
+            b = bytearray(data["sdk/src/lib.rs"])
+            cands = [i for i in range(len(b)) if chr(b[i]).isalnum()]
+            if cands:
+                i = cands[step.get("flip", {}).get("draw", 0) % len(cands)]
+                b[i] = ord("7") if b[i] != ord("7") else ord("3")
+            data["sdk/src/lib.rs"] = bytes(b)
+        for rel, content in data.items():
+            p = lay["real"](rel)
+            if content is None:
+                if os.path.exists(p):
+                    os.unlink(p)
+                continue
+            os.makedirs(os.path.dirname(p), exist_ok=True)
+            with open(p, "wb") as f:
+                f.write(content)
+
     def seed_outdir(self, step):
         proj = step.get("proj", "p0")
+        if proj == "ui":
+            return self.seed_outdir_ui(step)
         if proj not in self.projects:
             self.reset_project(proj)
         ws = self.slot.proj(proj)
@@ -537,6 +647,8 @@ class HistoryRun:
                 self.notes.append("readonly: chattr unavailable, arm skipped")
 
     def unlock_outdir(self, step):
+        if step.get("proj") == "ui":
+            return
         ws = self.slot.proj(step.get("proj", "p0"))
         if have_chattr():
             subprocess.run(["chattr", "-R", "-i", os.path.join(ws, "sdk")], capture_output=True)
@@ -580,7 +692,8 @@ class HistoryRun:
         for pr in sorted(self.saved["projects"]):
             rmtree(os.path.join(self.slot.dir, pr))
             cp_a(os.path.join(d, pr), os.path.join(self.slot.dir, pr))
-            self._touch_sources(pr)
+            if pr != "ui":
+                self._touch_sources(pr)
         self.toggles = {k: set(v) for k, v in self.saved["toggles"].items()}
         self.post_fault = self.saved["post_fault"]
         self.projects = set(self.saved["projects"])
@@ -644,9 +757,14 @@ class HistoryRun:
         t0 = time.time()
         self.reset_home(self.h.get("init_cache", "warm"))
         init_toggles = self.h.get("init_toggles", {})
-        self.reset_project("p0", init_toggles.get("p0", ()))
-        if any(s.get("proj") == "p1" for s in self._all_steps()):
+        projs = {s.get("proj", "p0") for s in self._all_steps() if s.get("op") in ("exec", "seed_outdir", "edit", "touch",
+                                                                                   "unlock_outdir")}
+        if "p0" in projs or not projs:
+            self.reset_project("p0", init_toggles.get("p0", ()))
+        if "p1" in projs:
             self.reset_project("p1", init_toggles.get("p1", ()))
+        if "ui" in projs:
+            self.reset_project("ui")
         for step in self.h["steps"]:
             op = step["op"]
             if op == "fault_exec":
